@@ -276,7 +276,7 @@ def run(rep, drv):
 		steps = []
 		for step in range(rng.randint(2, 6)):
 			avail = [t for t in need if all(a in attrs for a in need[t]) and t != attrs.get('type')]
-			if hist is not None and attrs.get('type') == 'CD' and len(attrs['probabilities']) >= 2 and len(attrs['demand_list']) == len(attrs['probabilities']) and rng.random() < .4:
+			if hist is not None and attrs.get('type') == 'CD' and isinstance(attrs['probabilities'], list) and isinstance(attrs['demand_list'], list) and len(attrs['probabilities']) >= 2 and len(attrs['demand_list']) == len(attrs['probabilities']) and rng.random() < .4:
 				# the list attributes edited IN PLACE (the object keeps the same list): two probabilities swapped, or one demand value moved
 				i_, j_ = rng.sample(range(len(attrs['probabilities'])), 2)
 				if rng.random() < .6 and attrs['probabilities'][i_] != attrs['probabilities'][j_]:
@@ -336,10 +336,15 @@ def run(rep, drv):
 				break
 
 	# ---- disruption processes ---------------------------------------------
-	for k in range(N // 2):
+	EDGE = [(0.5, 0), (0.3, 1), (0, 0.5), (1, 0.5), (1, 1), (0.25, 0.0), (1.0, 0.0), (0.0, 1.0)]          # probabilities 0 and 1 are legal (absorbing / alternating states)
+	for k in range(N // 2 + 6 * len(EDGE)):
 		a = rng.choice([0.05, 0.1, 0.3, 0.5]); b = rng.choice([0.2, 0.5, 0.9])
+		if k < 6 * len(EDGE):
+			a, b = EDGE[k // 6]; rep.count('markov:probability-0-or-1')
 		dp = DisruptionProcess(random_process_type='M', disruption_type='OP', disruption_probability=a, recovery_probability=b)
 		state = rng.random() < .5; u = rng.choice([0.0, a, a + 1e-9, 1 - b, 1 - b + 1e-9, rng.random()])
+		if k < 6 * len(EDGE):
+			state = bool(k % 2); u = [0.0, 0.37, 0.999999][(k // 2) % 3]
 		dp.disrupted = state
 		# thresholds as binary64 computes them: the code compares the draw with the float 1.0 - b
 		case = {'alpha': fr(a), 'beta': fr(1 - F(1.0 - b)), 'disrupted': state, 'u': fr(u)}
